@@ -419,7 +419,29 @@ def list_composition(func, name, before, depth=0):
                     if isinstance(n, ast.stmt) and
                     getattr(n, 'lineno', 0) < limit),
                    key=lambda n: (n.lineno, n.col_offset))
+    enclosing = {}
+    for lp_ in walk_no_nested(func.node):
+        if isinstance(lp_, ast.For):
+            for x in ast.walk(lp_):
+                if x is not lp_ and isinstance(x, ast.stmt):
+                    enclosing[x] = lp_          # innermost wins (visited last)
+    derived_from = set()
     for n in stmts:
+        lp_ = enclosing.get(n)
+        if lp_ is not None and lp_ is not before and depth < 2 and \
+                isinstance(n, ast.Expr) and isinstance(n.value, ast.Call) and \
+                isinstance(n.value.func, ast.Attribute) and \
+                norm(n.value.func.value) == name and \
+                n.value.func.attr == 'append' and id(lp_) not in derived_from:
+            # one element per element of what the enclosing loop iterates
+            derived_from.add(id(lp_))
+            out = out + iter_composition(func, lp_, depth + 1)
+            continue
+        if lp_ is not None and id(lp_) in derived_from and \
+                isinstance(n, ast.Expr) and isinstance(n.value, ast.Call) and \
+                isinstance(n.value.func, ast.Attribute) and \
+                norm(n.value.func.value) == name:
+            continue
         if isinstance(n, ast.Assign) and len(n.targets) == 1 and \
                 norm(n.targets[0]) == name:
             out = tokens(n.value, depth)
@@ -444,12 +466,12 @@ def list_composition(func, name, before, depth=0):
     return out
 
 
-def iter_composition(func, lp):
+def iter_composition(func, lp, depth=0):
     """list_composition() of what a for loop iterates: a local list, or an
     expression made of local lists, literals and calls joined by `+`"""
     it = lp.iter
     if isinstance(it, ast.Name):
-        return list_composition(func, it.id, lp)
+        return list_composition(func, it.id, lp, depth)
     toks, work, parts = [], [it], []
     while work:
         e = work.pop()
@@ -475,69 +497,135 @@ def iter_composition(func, lp):
 
 def validated_entry_is_deleted_last(repo, rep):
     """C11.R5: DeleteInstance of a multi-namespace association removes one
-    copy of the instance per namespace.  Only the copy in the namespace of
-    the request is known to exist (the dispatcher checked it); the copies in
-    the other namespaces are not checked beforehand, and store.delete()
-    raises for a missing one.  The operation can therefore fail only before
-    it has changed anything if the unchecked deletes come first and the
-    checked one last: the list the delete loop iterates must end with the
-    request namespace.  (With the request namespace first, a missing copy
-    elsewhere makes the call raise after the instance has been removed from
-    the request namespace.)"""
-    r5 = rep.rule('C11.R5', 'in a multi-namespace delete the copy that is '
-                  'known to exist is removed last')
+    copy of the instance per namespace, and store.delete() raises for a
+    copy that is missing.  Only the copy in the namespace of the request is
+    known to exist (the dispatcher checked it).  The operation changes
+    nothing when it fails only if every delete is of an entry whose
+    existence was established *before the first delete*:
+      (a) the delete of the request's own instance name, or
+      (b) a delete under the fact `<store>.object_exists(<name>)`, or
+      (c) a delete in a loop over (store, name) pairs all of which were
+          collected under that fact;
+    and a loop that deletes does nothing else with the repository (a store
+    lookup for the next namespace could fail after an earlier iteration has
+    already deleted).  Before the repair (8e2cb84) the same rule read "the
+    request namespace is deleted last", which made the operation atomic only
+    for a single other namespace."""
+    from ..cfg import stmt_facts, GuardWalker
+    from ..inline import Flat
+    r5 = rep.rule('C11.R5', 'in a multi-namespace delete every removal is '
+                  'of an entry validated before the first removal')
     IWPF = 'pywbem_mock/_instancewriteprovider.py'
-    f = repo.cls(IWPF, 'InstanceWriteProvider').methods.get('DeleteInstance')
-    if f is None:
+    f0 = repo.cls(IWPF, 'InstanceWriteProvider').methods.get(
+        'DeleteInstance')
+    if f0 is None:
         raise AnalysisError('InstanceWriteProvider.DeleteInstance vanished')
-    pname = [p_ for p_ in f.params if p_ != 'self'][0]
-    # names that stand for the namespace of the request
-    req = {pname + '.namespace'}
-    for n in walk_no_nested(f.node):
-        if isinstance(n, ast.Assign) and len(n.targets) == 1 and \
-                isinstance(n.targets[0], ast.Name) and \
-                norm(n.value) in req:
-            req.add(n.targets[0].id)
-    loops = []
-    for lp in walk_no_nested(f.node):
-        if isinstance(lp, ast.For) and any(
-                isinstance(c, ast.Call) and
-                isinstance(c.func, ast.Attribute) and
-                c.func.attr == 'delete' and
-                norm(c.func.value).endswith('_store')
-                for c in ast.walk(lp)):
-            loops.append(lp)
-    if not loops:
-        raise AnalysisError('DeleteInstance: multi-namespace delete loop '
-                            'not found')
-    r5.functions.add(f.fq)
-    for lp in loops:
+    f = Flat(f0)
+    pname = [p_ for p_ in f0.params if p_ != 'self'][0]
+    fx = stmt_facts(f.node)
+    r5.functions.add(f0.fq)
+
+    def atoms_at(st):
+        return [a for t0, p0 in fx.get(st, ((), ()))[0]
+                for a in GuardWalker._atoms(t0, p0)]
+
+    def exists_fact(st, s_txt, x_txt):
+        return any(pol and isinstance(t, ast.Call) and
+                   isinstance(t.func, ast.Attribute) and
+                   t.func.attr == 'object_exists' and
+                   norm(t.func.value) == s_txt and len(t.args) == 1 and
+                   norm(t.args[0]) == x_txt for t, pol in atoms_at(st))
+
+    def is_delete(c):
+        return isinstance(c, ast.Call) and \
+            isinstance(c.func, ast.Attribute) and \
+            c.func.attr == 'delete' and len(c.args) == 1 and \
+            'store' in norm(c.func.value)
+
+    parent = {}
+    for n in ast.walk(f.node):
+        for c in ast.iter_child_nodes(n):
+            parent[c] = n
+    sites = [(st, c) for st in fx
+             if not isinstance(st, (ast.If, ast.For, ast.While, ast.Try,
+                                    ast.With))
+             for c in ast.walk(st) if is_delete(c)]
+    if not sites:
+        raise AnalysisError('DeleteInstance: no store.delete() found')
+    for st, c in sites:
         r5.sites += 1
-        toks = iter_composition(f, lp)
-        where = [i for i, (k_, v) in enumerate(toks)
-                 if k_ == 'elem' and norm(v) in req]
-        if any(k_ == 'unknown' for k_, _v in toks) or not toks:
-            r5.undecided.append('%s: the order of the namespaces the delete '
-                                'loop iterates is not evident (%s)'
-                                % (f.qualname, norm(lp.iter, 40)))
-            continue
-        ok = where == [len(toks) - 1]
-        r5.ob(ok, '%s|for %s' % (f.qualname, norm(lp.iter, 30)),
-              {'order': ['request namespace' if k_ == 'elem' and
-                         norm(v) in req else norm(v, 50)
-                         for k_, v in toks]})
+        s_txt, x_txt = norm(c.func.value), norm(c.args[0])
+        why = None
+        if x_txt == pname:
+            why = 'the instance of the request (checked by the dispatcher)'
+        elif exists_fact(st, s_txt, x_txt):
+            why = 'under %s.object_exists(%s)' % (s_txt, x_txt)
+        else:
+            # a loop over collected (store, name) pairs
+            lp = st
+            while lp in parent and not isinstance(lp, ast.For):
+                lp = parent[lp]
+            if isinstance(lp, ast.For) and \
+                    isinstance(lp.target, ast.Tuple) and \
+                    [norm(e) for e in lp.target.elts] == [s_txt, x_txt] and \
+                    isinstance(lp.iter, ast.Name):
+                lst = lp.iter.id
+                fills = [(s2, c2) for s2 in fx
+                         if not isinstance(s2, (ast.If, ast.For, ast.While,
+                                                ast.Try, ast.With))
+                         for c2 in ast.walk(s2)
+                         if isinstance(c2, ast.Call) and
+                         isinstance(c2.func, ast.Attribute) and
+                         norm(c2.func.value) == lst and
+                         c2.func.attr in ('append', 'extend', 'insert')]
+                others = [n for n in walk_no_nested(f.node)
+                          if isinstance(n, (ast.Assign, ast.AugAssign)) and
+                          any(norm(t) == lst for t in (
+                              n.targets if isinstance(n, ast.Assign)
+                              else [n.target])) and
+                          not (isinstance(n, ast.Assign) and
+                               isinstance(n.value, (ast.List, ast.Tuple))
+                               and not n.value.elts)]
+                good = bool(fills) and not others and all(
+                    c2.func.attr == 'append' and len(c2.args) == 1 and
+                    isinstance(c2.args[0], ast.Tuple) and
+                    len(c2.args[0].elts) == 2 and
+                    exists_fact(s2, norm(c2.args[0].elts[0]),
+                                norm(c2.args[0].elts[1]))
+                    for s2, c2 in fills)
+                if good:
+                    why = 'pairs collected under object_exists()'
+        ok = why is not None
+        r5.ob(ok, '%s|%s' % (f0.qualname, norm(c, 50)), {'validated': why})
         if not ok:
-            rep.finding(r5, f.qualname, 'for %s in %s' % (
-                norm(lp.target), norm(lp.iter, 30)), 'validated-not-last',
-                IWPF, lp.lineno,
-                'the delete loop does not remove the copy in the request '
-                'namespace last (order: %s): when a copy in another '
-                'namespace is missing, store.delete() raises after the '
-                'instance has already been removed from the request '
-                'namespace - the failed operation has changed the '
-                'repository' % ', '.join(
-                    'request namespace' if k_ == 'elem' and norm(v) in req
-                    else norm(v, 40) for k_, v in toks))
+            rep.finding(r5, f0.qualname, norm(c, 60), 'unvalidated-delete',
+                        IWPF, c.lineno,
+                        '%s removes an entry whose existence has not been '
+                        'established before the first removal: when that '
+                        'copy is missing, store.delete() raises after other '
+                        'copies have already been removed - the failed '
+                        'operation has changed the repository' % norm(c, 50))
+        # nothing else touches the repository inside a deleting loop
+        lp = st
+        while lp in parent and not isinstance(lp, (ast.For, ast.While)):
+            lp = parent[lp]
+        if isinstance(lp, (ast.For, ast.While)):
+            other = [x for x in ast.walk(lp) if isinstance(x, ast.Call) and
+                     not is_delete(x) and
+                     isinstance(x.func, ast.Attribute) and
+                     ('cimrepository' in norm(x.func.value) or
+                      'store' in norm(x.func.value) or
+                      x.func.attr.startswith('get_'))]
+            ok2 = not other
+            r5.ob(ok2, '%s|loop of %s' % (f0.qualname, norm(c, 40)))
+            if not ok2:
+                rep.finding(r5, f0.qualname, norm(other[0], 60),
+                            'lookup-between-deletes', IWPF, other[0].lineno,
+                            'the loop that deletes also calls %s: when it '
+                            'fails for a later element (a namespace that '
+                            'does not exist), earlier iterations have '
+                            'already deleted - the failed operation has '
+                            'changed the repository' % norm(other[0], 50))
 
 
 def write_loops_are_duplicate_free(repo, rep, rid='C11.R3'):
